@@ -5,6 +5,9 @@ import Yarel.Drv.Pace
 import Yarel.Drv.Upv
 import Yarel.Drv.Map
 import Yarel.Drv.Str
+import Yarel.Drv.Verify
+import Yarel.Drv.Exc
+import Yarel.Drv.Fib
 
 def main (args : List String) : IO UInt32 := do
   match args with
@@ -14,6 +17,9 @@ def main (args : List String) : IO UInt32 := do
   | "upv" :: rest => do Yarel.Drv.Upv.run rest; return 0
   | "map" :: rest => do Yarel.Drv.Map.run rest; return 0
   | "str" :: rest => do Yarel.Drv.Str.run rest; return 0
+  | "verify" :: rest => do Yarel.Drv.Verify.run rest; return 0
+  | "exc" :: rest => do Yarel.Drv.Exc.run rest; return 0
+  | "fib" :: rest => do Yarel.Drv.Fib.run rest; return 0
   | _ => do
     IO.eprintln "usage: yarel_model <family> [args]"
     return 2
